@@ -84,8 +84,15 @@ def healpix_case(draw, tier, mode):
     theta = [draw(st.one_of(st.sampled_from(special_t), st.floats(0.0, math.pi, allow_nan=False))) for _ in range(n)]
     phi = [draw(st.one_of(st.sampled_from([0.0, math.pi / 2, math.pi, -math.pi, 2 * math.pi, 3.5 * math.pi, -7.0]),
                           st.floats(-4 * math.pi, 4 * math.pi, allow_nan=False))) for _ in range(n)]
+    centres = None
+    if draw(st.integers(0, 2)) == 0:
+        # directions of pixel centres (robust at every resolution, also in float32): high nside is affordable
+        nside = draw(st.sampled_from([64, 256, 1024, 2048, 4096]))
+        npix = 12 * nside * nside
+        centres = [draw(st.one_of(st.integers(0, 60), st.integers(npix - 60, npix - 1), st.integers(0, npix - 1))) for _ in range(n)]
+    bcast = draw(st.integers(0, 3)) == 0
     return {'what': 'healpix', 'nside': nside, 'theta': theta, 'phi': phi, 'coverage': draw(st.booleans()),
-            'rep': draw(st.integers(1, 5))}
+            'rep': draw(st.integers(1, 5)), 'centres': centres, 'bcast': bcast, 'k': draw(st.integers(1, 3))}
 
 
 def strategy(tier, mode):
@@ -208,11 +215,16 @@ def check(recipe, mode):
     from furax.samplings import Sampling
 
     nside = recipe['nside']
-    if not x64 and nside > 64:
-        nside = 64
     fdt = np.float64 if x64 else np.float32
-    theta = np.asarray(np.asarray(recipe['theta'], dtype=fdt), dtype=np.float64)
-    phi = np.asarray(np.asarray(recipe['phi'], dtype=fdt), dtype=np.float64)
+    if recipe.get('centres'):
+        th0, ph0 = hp.pix2ang(nside, np.asarray(recipe['centres'], dtype=np.int64))
+        theta = np.asarray(np.asarray(th0, dtype=fdt), dtype=np.float64)
+        phi = np.asarray(np.asarray(ph0, dtype=fdt), dtype=np.float64)
+    else:
+        if not x64 and nside > 64:
+            nside = 64
+        theta = np.asarray(np.asarray(recipe['theta'], dtype=fdt), dtype=np.float64)
+        phi = np.asarray(np.asarray(recipe['phi'], dtype=fdt), dtype=np.float64)
     theta = np.clip(theta, 0.0, math.pi)
     # (world2pixel is jitted with the landscape as a static argument: reuse instances to avoid recompiling)
     key = (nside, fdt)
@@ -222,7 +234,7 @@ def check(recipe, mode):
     if land.shape != (12 * nside ** 2,) or land.nside != nside:
         raise Violation('landscape-bookkeeping', f'nside {nside}: shape {land.shape}')
     ref = hp.ang2pix(nside, theta, phi)
-    delta = 1e-9 if x64 else 3e-5
+    delta = 1e-9 if x64 else (3e-5 if not recipe.get('centres') else min(3e-5, 0.05 / nside))
     robust = np.ones(theta.shape, dtype=bool)
     for dt_, dp in ((delta, 0), (-delta, 0), (0, delta), (0, -delta), (delta, delta), (-delta, -delta)):
         robust &= hp.ang2pix(nside, np.clip(theta + dt_, 0, math.pi), phi + dp) == ref
@@ -236,6 +248,24 @@ def check(recipe, mode):
     if (got < 0).any() or (got >= 12 * nside ** 2).any():
         raise Violation('world2index-range', 'index outside 0..npix-1')
     classes = ['healpix', f'nside:{nside}', 'all_robust' if robust.all() else 'some_non_robust']
+    if recipe.get('centres'):
+        classes.append('pixel_centres')
+    if recipe['coverage'] and recipe.get('bcast') and nside <= 64:
+        # a sampling given by broadcastable arrays: k colatitudes x n longitudes
+        k = min(recipe.get('k', 1), theta.size)
+        thb = theta[:k].reshape(k, 1)
+        sampb = Sampling(jnp.asarray(thb, dtype=fdt), jnp.asarray(phi, dtype=fdt), jnp.zeros(phi.size, dtype=fdt))
+        covb = np.asarray(must_not_raise('get_coverage', land.get_coverage, sampb))
+        total = k * phi.size
+        if int(covb.sum()) != total:
+            raise Violation('coverage-total', f'coverage sums to {int(covb.sum())} for {total} samples ({k} colatitudes x {phi.size} longitudes)')
+        refb = hp.ang2pix(nside, np.broadcast_to(thb, (k, phi.size)), np.broadcast_to(phi, (k, phi.size)))
+        robb = np.ones(refb.shape, dtype=bool)
+        for dt_, dp in ((delta, 0), (-delta, 0), (0, delta), (0, -delta)):
+            robb &= hp.ang2pix(nside, np.clip(np.broadcast_to(thb, refb.shape) + dt_, 0, math.pi), np.broadcast_to(phi, refb.shape) + dp) == refb
+        if robb.all() and not np.array_equal(covb, np.bincount(refb.reshape(-1), minlength=12 * nside ** 2)):
+            raise Violation('coverage-value', 'coverage of a broadcast sampling differs from the histogram')
+        classes.append('coverage_broadcast')
     if recipe['coverage']:
         rep = recipe['rep']
         th, ph = np.tile(theta, rep), np.tile(phi, rep)
